@@ -12,3 +12,16 @@ CLAIMED["C16"] = {
             "harness generators. f64 powi for powers of two assumed exact (checked for all 256 i8 inputs each run).",
     "technique": "Lean 4 theorems (omega, decide +kernel) + differential correspondence against the Rust operators",
 }
+
+CLAIMED["C04"] = {
+    "text": "Proof. Lean theorems for every byte string: decoding depends only on the first messageLength octets (prefix independence, "
+            "padding ignored, truncation rejected); a decoded message re-encodes to exactly the declared length, decodes again to an "
+            "equal message, and carries the same value as the input at the Clause 13 position of every header field, flag and body "
+            "field (independent table-driven reader fieldAt/flagAt); encode/decode round trip for all well-formed messages. "
+            "The tables the Rust source indexes are re-extracted on every run and compared with the Clause 13 tables by `decide`; "
+            "the model codec is compared with the Rust codec on ~350k generated frames per quick run (all fields dumped, error class, "
+            "re-encoded bytes), and an independently written Rust Clause 13 reader judges the implementation directly.",
+    "note": "Trusted: Lean kernel; Spec/Clause13.lean (transcription of the standard); regex translator; generator coverage. "
+            "serialize is observed on zeroed buffers; frames longer than 65535 octets are outside the theorem (hosts pass <= 2048).",
+    "technique": "Lean 4 theorems (structural induction, omega, decide) + translated layout tables + differential correspondence",
+}
